@@ -336,7 +336,7 @@ type e2eCfg struct {
 	devName                                                             string
 	lat, lon, alt, acc                                                  float32
 	locMode, diskNear                                                   int
-	relMode                                                             int
+	relMode, flick                                                      int
 	tickBad                                                             int // a bad frame exactly on the frame the periodic frame-count log line is printed for
 	serial                                                              int
 	firmware                                                            string
@@ -460,6 +460,13 @@ func genE2E(r *vRng, tier string, w *bufio.Writer) {
 		if c.throttle == 1 && c.min+c.preview == 0 {
 			c.min, c.max = 1, c.max+1 // refill rate (min+preview)*fps/min-refill must be > 0
 		}
+		if id%6 == 4 {
+			// throttled, motion on every frame (flickering warm pixels), short recordings back to back: the bucket runs
+			// through every level, also the band between min-secs*fps and (min-secs+preview-secs)*fps
+			c.throttle, c.flick, c.dyn, c.windowSet, c.window, c.diskOk, c.constOn = 1, 1, 0, 0, 1, 1, 0
+			c.preview, c.min, c.max, c.bucketSecs = r.pick(1, 2), 1, r.pick(1, 2), r.pick(3, 6)
+			c.thresh, c.fps = 1000, r.pick(2, 3)
+		}
 		directedCooling := id%6 == 2
 		if directedCooling {
 			// dynamic threshold on a cooling scene, motion from before the recording window opens until after it
@@ -484,7 +491,7 @@ func genE2E(r *vRng, tier string, w *bufio.Writer) {
 		// left out of config.toml and the camera model of each connection selects the defaults
 		c.motionDefaults = 0
 		nconn := 1
-		if r.chance(35) && !directedCooling {
+		if r.chance(35) && !directedCooling && c.flick == 0 {
 			nconn = 2
 			if r.chance(60) {
 				c.motionDefaults = 1
@@ -664,6 +671,9 @@ func genE2EConn(r *vRng, c e2eCfg, w *bufio.Writer, last bool) {
 		if r.chance(50) {
 			hot = 1 - hot
 		}
+		if c.flick == 1 {
+			hot = 1
+		}
 		if cooling {
 			// a scene that cools frame by frame with something warm in view most of the time: the dynamic threshold
 			// follows the background down while motion continues
@@ -703,7 +713,7 @@ func genE2EConn(r *vRng, c e2eCfg, w *bufio.Writer, last bool) {
 		if hot == 1 {
 			y, xx := c.h/2, c.w/2
 			amp, flick := r.pick(1, 30, 400), 0
-			if cooling {
+			if cooling || c.flick == 1 {
 				// flickering: every frame differs from the previous ones, so motion persists frame after frame
 				amp, flick = 1+399*(k%2), 300*(k%2)
 			}
